@@ -13,4 +13,5 @@ def units(tier):
     for k in range(NSHARDS):
         u.append(dict(kind="xlift", mechanism="xlift bounded (C), exact", name=f"xlift:live-parameters[{k}/{NSHARDS}]", module="vf.tasks.t_rewrite", func="unit_params",
                       args=dict(shard=k, nshards=NSHARDS)))
+    u.append(dict(kind="func", mechanism="bounded runtime contract (C), native numpy scalars", name="bounded:parameter-numpy-scalars", module="vf.tasks.t_params", func="unit", args={}))
     return u
